@@ -87,8 +87,8 @@ func implBytecode(src string, vars []envVar, withFns bool) (code []byte, pool []
 
 // ---- independent structural verifier of the implementation's bytes ----
 type opInfo struct {
-	operands string // sequence of: c (16-bit const index), m (16-bit medium int), j (16-bit jump target), b (8-bit)
-	pop, push int   // fixed stack effect; -1 = depends on operands
+	operands  string // sequence of: c (16-bit const index), m (16-bit medium int), j (16-bit jump target), b (8-bit)
+	pop, push int    // fixed stack effect; -1 = depends on operands
 }
 
 func opTable() map[string]opInfo {
@@ -304,6 +304,26 @@ func runC11(r *Run) {
 		judge(evalCase{"[" + xs + "]", false})
 		// a conditional spanning more than 255 bytes
 		judge(evalCase{"if(b, len([" + xs + "]), 0)", false})
+	}
+	// constant-pool position sweep: every tail operator after 0..N constants
+	{
+		var ks []int
+		for k := 0; k <= 90; k++ {
+			ks = append(ks, k)
+		}
+		for k := 97; k <= 600; k += 13 {
+			ks = append(ks, k)
+		}
+		if r.Tier == "thorough" {
+			ks = nil
+			for k := 0; k <= 700; k++ {
+				ks = append(ks, k)
+			}
+		}
+		for _, src := range poolSweep(ks, sweepTails) {
+			judge(evalCase{src, false})
+			r.Count("pool-sweep programs")
+		}
 	}
 	n := 1200
 	if r.Tier == "thorough" {
